@@ -35,6 +35,7 @@ def rules(ctx):
     c047(ctx)
     c048(ctx)
     c049(ctx)
+    c0410(ctx)
     from . import C13
     C13.c135(ctx)
 
@@ -476,3 +477,32 @@ def c049(ctx):
                   "verify_gc can accept while the replayed collector still has a key to retain: once the outputs are exhausted every remaining input "
                   "entry is booked as discard without asking the policy, so a collection that lost the last keys it had to keep (and recorded them as "
                   "discard) is accepted", pt=pt)
+
+
+def c0410(ctx):
+    R = "C04.10"
+    ctx.declare(R, "a file name enters the tree at most once: an ingest adds `+X` to the manifest only after hard_link created sst/X -- the atomic "
+                   "step that refuses a second, concurrent ingest of the same contents (the manifest is a set: it would list X once and sum it twice)")
+    f = ctx.fn(R, TREE + "_ingest")
+    if not f:
+        return
+    hl = ctx.calls(R, f, r"^std::fs::hard_link$")
+    ami = ctx.calls(R, f, TREE + "apply_manifest_ingest$")
+    for h in hl:
+        dest = P.term_at(f, h)["dest"]["l"]
+        ok_edges = set()
+        for b in P.switch_blocks(f):
+            d = b.term["discr"]
+            if d.get("k") not in ("copy", "move"):
+                continue
+            for (_p, kind, p_) in P.defs(f).of(d["pl"]["l"]):
+                if kind == "assign" and p_["rv"]["r"] == "discr":
+                    srcs = P.origins(f, {"k": "copy", "pl": {"l": p_["rv"]["pl"]["l"], "p": []}})
+                    if any(x["k"] == "call" and x["pt"] == h for x in srcs) or p_["rv"]["pl"]["l"] == dest:
+                        ok_edges.add((b.idx, "sw:0"))
+        q = P.reach(f, P.after(f, h), ami, avoid=set(P.error_points(f)), avoid_edges=ok_edges)
+        ctx.check(R, f, "added-only-if-created", q is None and bool(ok_edges),
+                  "the manifest edit is reached only on the Ok edge of hard_link",
+                  "LsmTree::_ingest goes on to the manifest edit also when hard_link failed (AlreadyExists tolerated): two concurrent ingests of "
+                  "byte-identical files are then both admitted, the manifest lists the name once while input/output sums count it twice, and the "
+                  "next open fails the tree-vs-manifest comparison", pt=h, path=q)
